@@ -789,7 +789,10 @@ func FetchWithParallelRangeRequests(client *http.Client, rawURL string, cfg *Fet
 	// Receive loop. `expected` grows as we launch hedges; we exit when
 	// we have a successful result for every chunk OR when we've drained
 	// every launched goroutine and some chunks are still missing.
-	for chunksRemaining > 0 {
+	// `expected > 0` matters: once every launched attempt has reported, a
+	// chunk that only ever failed can never arrive, and waiting for it would
+	// block forever (an error received before the last success used to do so).
+	for chunksRemaining > 0 && expected > 0 {
 		cr := <-resultCh
 		expected--
 		if cr.err != nil {
